@@ -274,11 +274,23 @@ func c13WholeRun(t *testing.T, s *sim.Scn) *sim.Outcome {
 	}
 	var p any
 	if s.Cfg["restart"] == 1 {
-		var dump string
-		p, dump = sim.BubbleWall(t, func() { body(t, s, o) }, 60*time.Second)
-		if p == sim.BubbleStalled {
-			c13Stalled(s, o, dump)
-			return o
+		// cfg repeat=n: the timeline is run up to n times (fresh world each time) - for directed timelines whose
+		// outcome depends on which of two goroutines is first at one instant
+		for rep := int64(0); ; rep++ {
+			sub := sim.NewOutcome()
+			var dump string
+			p, dump = sim.BubbleWall(t, func() { body(t, s, sub) }, 60*time.Second)
+			if p == sim.BubbleStalled {
+				c13Stalled(s, sub, dump)
+				p = nil
+			}
+			o.Absorb(sub)
+			if sub.NonTrivial {
+				o.NonTrivial = true
+			}
+			if p != nil || o.V != nil || rep+1 >= s.Cfg["repeat"] {
+				break
+			}
 		}
 	} else {
 		p = sim.Bubble(t, func() { body(t, s, o) })
@@ -337,6 +349,19 @@ func c13Stalled(s *sim.Scn, o *sim.Outcome, dump string) {
 	o.Fail("C13/activities-wait-for-each-other", "", -1, fmt.Sprintf("the simulated clock stopped: nothing in the bubble runs or waits for simulated time, and these goroutines are not durably blocked: %s", strings.Join(waits, " || ")), "every activity makes progress or returns")
 }
 
+// c13RestartDirected: two timelines that once broke the tree in about one run in eight (which goroutine is first
+// at one instant decides), each repeated 8 times: (1) a sequencer node killed and started again while a full node
+// is connected and asking for its head; (2) a sequencer node killed around its first block, then a full node that
+// is stopped and has to start again from what the sequencer's P2P stores can serve.
+func c13RestartDirected() []*sim.Scn {
+	return []*sim.Scn{
+		{Cfg: map[string]int64{"restart": 1, "nfull": 0, "bt": 500, "dat": 1000, "eager": 1, "repeat": 8},
+			Ops: []sim.Op{{K: "run", A: 5000}, {K: "kill", A: 0}, {K: "run", A: 1000}, {K: "start", A: 0}, {K: "run", A: 3000}}},
+		{Cfg: map[string]int64{"restart": 1, "nfull": 0, "bt": 1000, "dat": 1000, "dalat": 5, "maxpending": 3, "repeat": 8},
+			Ops: []sim.Op{{K: "start", A: 0}, {K: "kill", A: 0}, {K: "start", A: 2}, {K: "tx", B: 1}, {K: "run", A: 5281}, {K: "stop", A: 1}, {K: "kill", A: 0}, {K: "tx", B: 2}, {K: "tx", B: 1}}},
+	}
+}
+
 // c13InitDirected: every schedule (all 2^11 choice prefixes) of "first header / first data item written
 // vs. head lookup" and of "restart on a non-empty header store: three headers published vs. two head
 // lookups" on the real sync services.
@@ -391,7 +416,7 @@ func TestC13W(t *testing.T) {
 		Gen:         c13WholeGen,
 		Run:         c13WholeRun,
 		// directed: stop while a catching-up full node has more headers queued than the event channel holds
-		Directed: append([]*sim.Scn{{Cfg: map[string]int64{"backlog": 1, "blocks": 10300, "stopms": 300}}, {Cfg: map[string]int64{"backlog": 1, "blocks": 500, "stopms": 100}}}, c13InitDirected()...),
+		Directed: append(append([]*sim.Scn{{Cfg: map[string]int64{"backlog": 1, "blocks": 10300, "stopms": 300}}, {Cfg: map[string]int64{"backlog": 1, "blocks": 500, "stopms": 100}}}, c13InitDirected()...), c13RestartDirected()...),
 		Workers:  8,
 		MaxQuick: 200, MaxThorough: 2500,
 		ReplayAttempts: 20,
